@@ -444,6 +444,30 @@ func (p c02) RunBatch(c *fw.Ctx) {
 		c.Count("pair_table_cases", 1)
 	}
 	c.Sample(map[string]any{"pair_table_example": "c - (a - b)"})
+	// 1b. block nesting of every depth 1..130 (indentation of the long form), for each kind of nesting construct
+	nestIdx := 0
+	for _, w := range [][2]string{{"if a {", "}"}, {"func f() {", "}"}, {"for a {", "}"}, {"x => {", "}"}, {"if a {b} else {", "}"}, {"if a {b} else if c {", "}"},
+		{"m = {\"k\": ", "}"}, {"[1, ", "]"}, {"f(", ")"}, {"for i = 2 {c; ", "; d}"}, {"x = () => {a; ", "}"}, {"if a {/* c */ ", "}"}, {"func g(p) {// c\n", "}"}} {
+		for d := 1; d <= 130; d++ {
+			nestIdx++
+			if nestIdx%c.NBatches != c.Batch {
+				continue
+			}
+			p.src(c, strings.Repeat(w[0], d)+"b"+strings.Repeat(w[1], d), false)
+			c.Count("nesting_depth_cases", 1)
+		}
+	}
+	// 1c. expression nesting around the parser's limit (what is accepted must print to something accepted again)
+	for _, w := range [][2]string{{"!", ""}, {"-", ""}, {"- ", ""}, {"+", ""}, {"^", ""}, {"!-", ""}, {"-!+", ""}, {"(", ")"}, {"[", "]"}, {"f(", ")"}, {"a - (", ")"}, {"a * -", ""}, {"x => ", ""}, {"{\"k\": ", "}"}, {"-(", ")"}, {"!f(-", ")"}, {"a[", "]"}, {"a + !", ""}} {
+		for _, d := range []int{2400, 2500, 2501, 3333, 3334, 4990, 4999, 5000, 5001, 5002, 6000, 9990, 9998, 9999, 10000, 10001} {
+			nestIdx++
+			if nestIdx%c.NBatches != c.Batch {
+				continue
+			}
+			p.src(c, strings.Repeat(w[0], d)+"b"+strings.Repeat(w[1], d), false)
+			c.Count("nesting_limit_cases", 1)
+		}
+	}
 	// 2. generated programs + mutations, each also as function body
 	nProg := c.Pick(1500, 60000)
 	for i := 0; i < nProg; i++ {
